@@ -23,6 +23,23 @@ type Named struct {
 	// Inner: types added to this type object itself (and not to the schema it is added to, which
 	// gets to know them only through this type)
 	Inner []Named `json:"inner_types,omitempty"`
+	// InnerLate: the inner types are added to this type object after it has been added to its host
+	// (the order of AddType calls on different objects does not matter)
+	InnerLate bool `json:"inner_added_late,omitempty"`
+}
+
+// addInnerLate adds the inner types of t (and of its inner types) which were left out by newType.
+func addInnerLate(t Named, obj jschema.Schema, fileName func(string) string) {
+	host, ok := obj.(*js.Schema)
+	if !ok || !t.InnerLate {
+		return
+	}
+	for _, in := range t.Inner {
+		in := in
+		io := newType(in, fileName)
+		Safe(func() error { return host.AddType(in.Name, io) })
+		addInnerLate(in, io, fileName)
+	}
 }
 
 // newType creates the object of a named type, with its inner types added to it.
@@ -36,9 +53,11 @@ func newType(t Named, fileName func(string) string) jschema.Schema {
 	} else {
 		o = js.New(fileName(t.Name), t.Text)
 	}
-	for _, in := range t.Inner {
-		in := in
-		Safe(func() error { return o.AddType(in.Name, newType(in, fileName)) })
+	if !t.InnerLate {
+		for _, in := range t.Inner {
+			in := in
+			Safe(func() error { return o.AddType(in.Name, newType(in, fileName)) })
+		}
 	}
 	return o
 }
@@ -222,6 +241,9 @@ func BuildSharing(sp Spec, shared map[string]jschema.Schema) (*js.Schema, Res, m
 		r := Safe(func() error { return s.AddType(t.Name, obj) })
 		if !r.OK && first.OK {
 			first = r
+		}
+		if !ok {
+			addInnerLate(t, obj, fileName)
 		}
 	}
 	return s, first, types
